@@ -196,6 +196,10 @@ double c_primes(const Op& op) {
     const double n = double(uint32_t(op.iarg(0)));
     return 40.0 * n * std::sqrt(n) / std::max(1.0, std::log(n + 2)) + 4000;
 }
+double c_proc(const Op&) {
+    // up to 64 granules of up to 441 samples through the longest default polyphase designs
+    return 1.0e6;
+}
 double c_big(const Op& op) {
     const double n = double(std::llabs(op.iarg(0))) + 4096;
     return 400.0 * n * std::log2(n) + 200000;
@@ -431,6 +435,27 @@ void op_slice_set(Ctx& c, const Op& op) {
     // x.slice(a,b,m) = y.slice(d,e,k)   (y may be x itself: overlapping move)
     const int i = int(op.iarg(1));
     const int j = int(op.iarg(2));
+    if (op.iarg(10) != 0) {
+        // size-consistent form: count elements from start sa (step ma) into start sb (step mb); arg 10 - 1 perturbs the source count
+        arr_real& x = CTX_R(i);
+        arr_real& y = CTX_R(j);
+        const int ma = 1 + int(op.iarg(5)) % 3;
+        const int mb = 1 + int(op.iarg(8)) % 3;
+        const int maxc = std::min((x.size() + ma - 1) / ma, (y.size() + mb - 1) / mb);
+        if (maxc >= 1) {
+            const int cnt = 1 + int(op.iarg(3)) % maxc;
+            const int cnt_src = int(std::max<int64_t>(rel_len(cnt, int(op.iarg(10)) - 1), 0));
+            const int sa = int(uint64_t(op.iarg(4)) % uint64_t(std::max(1, x.size() - (cnt - 1) * ma)));
+            const int sb = int(uint64_t(op.iarg(6)) % uint64_t(std::max(1, y.size() - (cnt_src > 0 ? (cnt_src - 1) * mb : 0))));
+            const bool neg = (op.iarg(7) % 4 == 0);   // negative stride on the destination
+            if (neg) {
+                x.slice(sa + (cnt - 1) * ma, std::max(sa - 1, 0) + (sa == 0 ? 0 : 0), -ma) = y.slice(sb, std::min(sb + cnt_src * mb, y.size()), mb);
+            } else {
+                x.slice(sa, std::min(sa + cnt * ma, x.size()), ma) = y.slice(sb, std::min(sb + cnt_src * mb, y.size()), mb);
+            }
+        }
+        return;
+    }
     if (op.iarg(9) % 2 == 0) {
         arr_real& x = CTX_R(i);
         arr_real& y = CTX_R(j);
@@ -1243,7 +1268,8 @@ void op_detector(Ctx& c, const Op& op) {
 
 void op_tuner_misc(Ctx& c, const Op& op) {
     const int fs = 1 + int(op.iarg(0)) % 50000;
-    const double f = double(op.iarg(1) % (fs + 2)) - fs / 2;   // may exceed fs/2: constructor must throw
+    // arg 1 == 0: a valid frequency; otherwise beyond +-fs/2: the constructor must throw
+    const double f = (op.iarg(1) == 0) ? -double(fs / 2) : ((op.iarg(1) % 2) ? 1.0 : -1.0) * (double(fs / 2) + 1.0 + double(op.iarg(1) % 7));
     dsplib::Tuner t(fs, f);
     sink(t(CTX_C(op.iarg(2))));
     dsplib::Delay<real_t> d(1 + int(op.iarg(3)) % 50);
@@ -1298,7 +1324,7 @@ const OpDef CATALOGUE[] = {
   {"solve", c_big, op_solve, true},
   {"czt", c_big, op_czt, false},
   {"mkproc", c_big, op_mkproc, false},
-  {"procframe", c_nm, op_procframe, true},
+  {"procframe", c_proc, op_procframe, true},
   {"adapt_mismatch", c_nm, op_adapt_mismatch, true},
   {"fir_misc", c_nm, op_fir_misc, true},
   {"window", c_n0, op_window, false},
@@ -1375,7 +1401,9 @@ Op gen_op(Rng& r, const OpDef& d, bool misuse) {
     } else if (k == "slice_get") {
         op.a = {0, R(0, 3), misuse ? R(0, 11) : R(0, 3), misuse ? R(0, 11) : R(2, 4), misuse ? R(0, 9) : R(0, 4), R(0, 1)};
     } else if (k == "slice_set") {
-        op.a = {0, R(0, 3), R(0, 3), R(0, 11), R(0, 11), R(0, 9), R(0, 11), R(0, 11), R(0, 9), R(0, 1)};
+        // arg 10: 0 = arbitrary index codes; 1 = size-consistent (valid); 2..8 = size-consistent with a perturbed source count (misuse)
+        const double mode = misuse ? (r.chance(0.5) ? 0.0 : double(r.range(2, 8))) : (r.chance(0.15) ? 0.0 : 1.0);
+        op.a = {0, R(0, 3), R(0, 3), R(0, 1000), R(0, 1000), R(0, 9), R(0, 1000), R(0, 11), R(0, 9), R(0, 1), mode};
     } else if (k == "slice_set_arr") {
         op.a = {0, R(0, 3), R(0, 3), R(2, 4), R(0, 6), rel, R(0, 2)};
     } else if (k == "slice_set_list") {
@@ -1505,7 +1533,6 @@ Result exec(const Plan& pl) {
             }
         }
     }
-    double worst_ratio = 0;
     for (size_t i = 0; i < pl.ops.size(); ++i) {
         Op op = pl.ops[i];
         op.a.resize(16, 0.0);
@@ -1528,7 +1555,13 @@ Result exec(const Plan& pl) {
         const double cost = d->cost(op);
         const uint64_t e0 = sim::edges_now();
         // the edge clock: budget = 50 x the calibrated edges per work unit (see DESIGN 2.3), never below 2e6
-        const uint64_t budget = uint64_t(std::max(2e6, 50.0 * cost));
+        // ... and never below 40 N^2 for the largest live array (the documented worst case among the array ops is
+        // quadratic: Kendall correlation, direct FIR / polyphase loops over pool arrays)
+        double nmax = 64;
+        for (int q = 0; q < NPOOL; ++q) {
+            nmax = std::max(nmax, double(std::max(c.R[q].size(), c.C[q].size())));
+        }
+        const uint64_t budget = uint64_t(std::max({2e6, 50.0 * cost, 40.0 * nmax * nmax}));
         set_cur_opf("C05_%s | op %zu of %zu", d->name, i, pl.ops.size());
         sim::set_edge_budget(e0 + budget);
         std::string outcome = "returned";
@@ -1539,7 +1572,11 @@ Result exec(const Plan& pl) {
         }
         sim::clear_edge_budget();
         const uint64_t used = sim::edges_now() - e0;
-        worst_ratio = std::max(worst_ratio, double(used) / cost);
+        {
+            // how much of its edge budget the op used (per mille): the margin against false hang alarms
+            int64_t& slot = res.ctr[std::string("max_budget_used_permille.") + d->name];
+            slot = std::max<int64_t>(slot, int64_t(1000.0 * double(used) / double(budget)));
+        }
         res.inc(std::string("op.") + d->name + "." + outcome);
         res.inc("sim.edges", int64_t(used));
         res.inc("sim.ops");
@@ -1553,7 +1590,6 @@ Result exec(const Plan& pl) {
         res.digest.str(d->name);
         res.digest.str(outcome);
     }
-    res.ctr["max_edges_per_cost_x1000"] = int64_t(worst_ratio * 1000);
     if (simio::open_handles() > 0) {
         res.inc("probe.file_left_open_after_exception", simio::open_handles());
     }
